@@ -422,8 +422,14 @@ impl Search {
         let mut rng = Rng::for_run(seed, self.id(), run);
         let doc: Vec<char> = if rng.chance(1, 3) { self.docs.chars[rng.usize_below(self.docs.chars.len())].1.clone() } else {
             let big = rng.chance(1, 50);
-            let k = Knobs::draw(&mut rng, if big { self.max_items } else { 120 });
-            gen_doc(&mut rng, &k)
+            if big && rng.chance(1, 2) {
+                // a long document (thresholds of block-wise processing, position accounting far from the start)
+                let target = if rng.chance(1, 10) { rng.urange(self.max_items, self.max_items * 8) } else { rng.urange(2000, self.max_items) };
+                super::docgen::gen_big_doc(&mut rng, target)
+            } else {
+                let k = Knobs::draw(&mut rng, if big { self.max_items } else { 120 });
+                gen_doc(&mut rng, &k)
+            }
         };
         // swarm: a random subset of fault kinds is enabled in this run
         let all = [K_FAIL, K_END, K_FLIP, K_DROP, K_DUP, K_SWAP, K_INSERT, K_BITFLIP];
